@@ -475,7 +475,11 @@ def runLine (ts : List String) : Verdict :=
         let (s, model) := runReqs (RS.init nchan) reqs
         if r.rets.length != model.length then .diff s!"history cut short: {r.rets.length} of {model.length} replies"
         else match firstDiff model r.rets 0 with
-          | some i => .diff s!"reply {i}: impl {r.rets.getD i 9} model {model.getD i 9}"
+          | some i =>
+            -- a request the semantics refuses (invalid arguments, no source, I/O failure) that the server accepted
+            if r.rets.getD i 9 == 0 && model.getD i 9 == 1 then
+              .viol s!"C11:invalid-request-accepted request {i} of the history must be answered with an error (invalid arguments / no running source) but was accepted"
+            else .diff s!"reply {i}: impl {r.rets.getD i 9} model {model.getD i 9}"
           | none =>
             if r.probe == 1 then .viol "C11:data-stalled the source is active but a block fed after the requests was not processed"
             else if (r.probe != 0) != s.active then .diff s!"source active: impl probe {r.probe} model {s.active}"
